@@ -336,15 +336,18 @@ func (self Reflect) listMap(v reflect.Value) node.Node {
 				item = self.create(e, nil)
 				keyVal := reflect.ValueOf(key[0].Value())
 				v.SetMapIndex(keyVal, item)
+				keys = nil
 			} else if key != nil {
 				keyVal := reflect.ValueOf(key[0].Value())
 				if r.Delete {
 					v.SetMapIndex(keyVal, reflect.ValueOf(nil))
+					keys = nil
 					return nil, nil, nil
 				}
 				item = v.MapIndex(keyVal)
 			} else {
-				if keys == nil {
+				// the map may have changed through another node since the last walk
+				if keys == nil || r.First {
 					keys = v.MapKeys()
 					sort.Sort(valSorter(keys))
 				}
